@@ -146,6 +146,7 @@ def mon_c35(tr: Trace) -> list[Violation]:
                 out.append(Violation("C35/not_running_without_running", f"NOT_RUNNING on {key} without a preceding RUNNING", _replay(tr)))
                 break
             open_slots[key] = 0
+    out += _c35_entered_after_running(tr)
     # InputRequiredEvent returned by a step is published exactly once
     reduced_results: set[int] = set()
     for c in _runner_calls(tr):
@@ -162,6 +163,64 @@ def mon_c35(tr: Trace) -> list[Violation]:
         ended_early = tr.outcome[0] in ("cancelled", "timeout", "error", "result")
         if n > 1 or (n == 0 and not ended_early):
             out.append(Violation("C35/input_required_count", f"InputRequiredEvent uid={uid} returned by a step was published {n} times", _replay(tr)))
+    return out
+
+
+def _c35_entered_after_running(tr: Trace) -> list[Violation]:
+    """'for every step invocation the stream shows a RUNNING state change ...': stated on the step bodies the harness saw
+    start (independent of the reducer's tables): when a body of step s starts, the stream published so far must hold, for s,
+    at least as many open RUNNING slots as there are bodies of s executing (this one included)."""
+    out: list[Violation] = []
+    if any(r[0] == "enter" and "stream_len" not in r[5] for r in tr.steps):
+        return out  # sync bodies run in executor threads: no publication point is recorded for them
+    active: dict[str, int] = {}
+    open_at: list[dict[str, int]] = []  # open slots per step after stream[:i]
+    cur: dict[tuple, bool] = {}
+    per: dict[str, int] = {}
+    open_at.append(dict(per))
+    for (e, _vt, _idx, _o) in tr.stream:
+        if isinstance(e, StepStateChanged) and e.step_state in (StepState.RUNNING, StepState.NOT_RUNNING):
+            key = (e.name, e.worker_id)
+            want = e.step_state == StepState.RUNNING
+            if cur.get(key, False) != want:
+                cur[key] = want
+                per[e.name] = per.get(e.name, 0) + (1 if want else -1)
+        open_at.append(dict(per))
+    for r in tr.steps:
+        if r[0] == "enter":
+            active[r[1]] = active.get(r[1], 0) + 1
+            n_open = open_at[min(r[5]["stream_len"], len(open_at) - 1)].get(r[1], 0)
+            if n_open < active[r[1]]:
+                out.append(Violation("C35/step_entered_without_running",
+                                     f"step {r[1]} started executing its invocation of event uid={r[2]} (attempt {r[3]}) while {active[r[1]]} of its bodies "
+                                     f"run, but the stream published until then shows only {n_open} open RUNNING slot(s) for it", _replay(tr)))
+                break
+        elif r[0] == "exit":
+            active[r[1]] = max(active.get(r[1], 0) - 1, 0)
+    return out
+
+
+def c35_resumed_announcements(tr: Trace, snapshot: dict) -> list[Violation]:
+    """A run resumed from a serialised context re-initiates, before its first tick, the invocations that were in progress or
+    queued (as many per step as it has workers).  Each of them is a step invocation: its RUNNING must be on the resumed
+    run's stream before anything else happens.  Expected numbers are recomputed from the SNAPSHOT (the input), not read from
+    the engine's tables."""
+    out: list[Violation] = []
+    nw = _nw(tr)
+    calls = tr.calls
+    k = next((i for i, c in enumerate(calls) if c.kind == "rewind" and c.caller == "run"), None)
+    if k is None or tr.outcome[0] == "invalid":
+        return out
+    workers = snapshot.get("workers", {}) if isinstance(snapshot, dict) else {}
+    startup = [e for (e, _vt, idx, _o) in tr.stream if idx == k + 1 and isinstance(e, StepStateChanged)]
+    for nm, w in sorted(workers.items()):
+        pending = len(w.get("in_progress", [])) + len(w.get("queue", []))
+        want = min(nw.get(nm, 0), pending)
+        got = sum(1 for e in startup if e.name == nm and e.step_state == StepState.RUNNING)
+        if got != want:
+            out.append(Violation("C35/resumed_invocation_not_announced" if got < want else "C35/resumed_invocation_announced_twice",
+                                 f"the restored context holds {pending} pending invocation(s) of step {nm} ({nw.get(nm, 0)} worker(s)): {want} are "
+                                 f"re-initiated when the run starts, but the stream shows {got} RUNNING for {nm} before the first tick", _replay(tr)))
     return out
 
 
